@@ -9,7 +9,7 @@ from __future__ import annotations
 import re
 
 from vf.gen import classical as gc
-from vf.harness import l2
+from vf.harness import controller as hc, l2
 from vf.ref import interp as ri
 
 PID = "C04"
@@ -59,7 +59,7 @@ def cases(ctx):
                 break
         # (every fifth history runs under the hardware setting, where register and array values are also checked for width:
         # a 32-bit overflow is then a loud refusal, everything else is as on the simulator)
-        yield {"kind": "history", "units": units, "subs": subs, "hw": rng.random() < 0.2}
+        yield {"kind": "history", "units": units, "subs": subs, "hw": rng.random() < 0.2, "again": rng.random() < 0.34}
 
 
 def run_case(ctx, case):
@@ -78,98 +78,111 @@ def _run_case(ctx, case):
     from netqasm.runtime.settings import get_is_using_hardware, set_is_using_hardware
     set_is_using_hardware(bool(case.get("hw")))      # (building the executor side resets the global switch)
     assert get_is_using_hardware() == bool(case.get("hw"))
-    refs = []
-    for a, u in enumerate(case["units"]):
-        side.init_app(a, u)
-        refs.append(ri.AppState(u))
     nontrivial = False
     complete = True
-    for k, sub in enumerate(case["subs"]):
-        app, prog = sub["app"], sub["prog"]
-        before_other = [l2.ref_view(r) for r in refs]
-        r_out, r_info = ri.run_program(refs[app], prog, step_bound=600)
-        if r_out in ("ood", "bound"):
-            ctx.count("discarded_" + r_out)
-            complete = False
-            break
-        e_out, e_info = side.run(app, prog)
-        ctx.count("subroutines_judged")
-        if len(r_info["trace"]) >= 8:
-            nontrivial = True
-        rt = r_info["trace"]
-        ctx.count("branches_taken", sum(1 for x, y in zip(rt, rt[1:]) if y != x + 1))
-        where = f"subroutine {k} (app {app})"
-        m_ = re.search(r"value (-?\d+) does not fit into (\d+) bits", str(e_info.get("exc", ""))) if case.get("hw") else None
-        if m_ and -(2 ** (int(m_.group(2)) - 1)) <= int(m_.group(1)) <= 2 ** (int(m_.group(2)) - 1) - 1:
-            ctx.fail(case, f"{where}: on the hardware setting the executor refused the value {m_.group(1)}, which fits {m_.group(2)} bits "
-                           f"({e_info.get('exc', '')})")
-            return ctx.case(case, nontrivial)
-        if m_:
-            # (a value that does not fit 32 bits is refused on the hardware setting - also when the reference, which does not model
-            # widths, faults somewhere later for its own reason)
-            ctx.count("discarded_hardware_width_refusals")
-            complete = False
-            break
-        if e_out != r_out:
-            ctx.fail(case, f"{where}: executor {e_out} {e_info.get('exc', '')} at {e_info.get('line')} but reference "
-                           f"{r_out} {r_info.get('what', '')} at {r_info.get('line')}")
-            return ctx.case(case, nontrivial)
-        want_trace = rt if r_out == "done" else rt[:-1]
-        if e_info["trace"] != want_trace:
-            i = next((j for j, (x, y) in enumerate(zip(e_info["trace"], want_trace)) if x != y), min(len(e_info["trace"]), len(want_trace)))
-            ctx.fail(case, f"{where}: program-counter trace diverges at step {i}: executor {e_info['trace'][max(0, i - 2):i + 3]} "
-                           f"reference {want_trace[max(0, i - 2):i + 3]}")
-            return ctx.case(case, nontrivial)
-        if r_out == "fault":
-            ctx.count("faults_compared")
-            if e_info["line"] != r_info["line"]:
-                ctx.fail(case, f"{where}: fault reported at line {e_info['line']} ({e_info['exc']}), reference faults at "
-                               f"line {r_info['line']} ({r_info['what']})")
+    # every third history is run a second time on the same executor after all its applications were stopped and registered again:
+    # a run after a stop behaves like a run on a fresh executor (whatever happened before the stop - also a fault)
+    rounds = 2 if case.get("again") else 1
+    for round_ in range(rounds):
+        round_tag = "" if round_ == 0 else " [second run of the history, after every application was stopped and registered again]"
+        if round_ == 1:
+            if not complete:
+                break
+            ctx.count("histories_run_again_after_stop")
+            for a in range(len(case["units"])):
+                hc.drive(side.ex.stop_application(a), side.ex, None)
+            del side.ex.ret_log[:]
+            del side.ex.ret_mismatch[:]
+        refs = []
+        for a, u in enumerate(case["units"]):
+            side.init_app(a, u)
+            refs.append(ri.AppState(u))
+        for k, sub in enumerate(case["subs"]):
+            app, prog = sub["app"], sub["prog"]
+            before_other = [l2.ref_view(r) for r in refs]
+            r_out, r_info = ri.run_program(refs[app], prog, step_bound=600)
+            if r_out in ("ood", "bound"):
+                ctx.count("discarded_" + r_out)
+                complete = False
+                break
+            e_out, e_info = side.run(app, prog)
+            ctx.count("subroutines_judged")
+            if len(r_info["trace"]) >= 8:
+                nontrivial = True
+            rt = r_info["trace"]
+            ctx.count("branches_taken", sum(1 for x, y in zip(rt, rt[1:]) if y != x + 1))
+            where = f"subroutine {k} (app {app})" + round_tag
+            m_ = re.search(r"value (-?\d+) does not fit into (\d+) bits", str(e_info.get("exc", ""))) if case.get("hw") else None
+            if m_ and -(2 ** (int(m_.group(2)) - 1)) <= int(m_.group(1)) <= 2 ** (int(m_.group(2)) - 1) - 1:
+                ctx.fail(case, f"{where}: on the hardware setting the executor refused the value {m_.group(1)}, which fits {m_.group(2)} bits "
+                               f"({e_info.get('exc', '')})")
                 return ctx.case(case, nontrivial)
-        if r_out == "blocked":
-            ctx.count("blocked_waits_observed")
-        for a in range(len(refs)):
-            d = l2.diff_views(side.app_view(a), l2.ref_view(refs[a]))
-            if d:
-                tag = "" if a == app else f" (app {a} was not running: isolation)"
-                ctx.fail(case, f"{where}: after {r_out}{' at line ' + str(r_info.get('line')) if r_out != 'done' else ''}, app {a} {d}{tag}")
+            if m_:
+                # (a value that does not fit 32 bits is refused on the hardware setting - also when the reference, which does not model
+                # widths, faults somewhere later for its own reason)
+                ctx.count("discarded_hardware_width_refusals")
+                complete = False
+                break
+            if e_out != r_out:
+                ctx.fail(case, f"{where}: executor {e_out} {e_info.get('exc', '')} at {e_info.get('line')} but reference "
+                               f"{r_out} {r_info.get('what', '')} at {r_info.get('line')}")
                 return ctx.case(case, nontrivial)
-        # host-visible shared memory received the publications
-        from netqasm.sdk.shared_memory import SharedMemoryManager
-        shm = SharedMemoryManager.get_shared_memory("node", app)
-        for name, v in refs[app].shared_regs.items():
-            if shm is None or shm.get_register(name) != v:
-                ctx.fail(case, f"{where}: returned register {name}={v} not visible in the host's shared memory "
-                               f"({None if shm is None else shm.get_register(name)})")
+            want_trace = rt if r_out == "done" else rt[:-1]
+            if e_info["trace"] != want_trace:
+                i = next((j for j, (x, y) in enumerate(zip(e_info["trace"], want_trace)) if x != y), min(len(e_info["trace"]), len(want_trace)))
+                ctx.fail(case, f"{where}: program-counter trace diverges at step {i}: executor {e_info['trace'][max(0, i - 2):i + 3]} "
+                               f"reference {want_trace[max(0, i - 2):i + 3]}")
                 return ctx.case(case, nontrivial)
-        if side.ex.ret_mismatch:
-            ctx.fail(case, f"{where}: {side.ex.ret_mismatch[0]}")
-            return ctx.case(case, nontrivial)
-        # Between returns the host's copy of a returned array is either the snapshot taken by ret_arr or (in-process shared
-        # memory, which the SDK relies on across subroutines) the returned list itself, i.e. it follows later stores to THAT
-        # array until the address is re-declared.  Anything else - e.g. wiped by a later `array` - is not prescribed by any
-        # instruction.  Checked for every application after every subroutine, fault or not.
-        for a in range(len(refs)):
-            shm_a = SharedMemoryManager.get_shared_memory("node", a)
-            for addr, snap in refs[a].shared_arrays.items():
-                ctx.count("host_arrays_compared")
-                try:
-                    host = list(shm_a._get_array(addr))
-                except Exception:
-                    ctx.fail(case, f"{where}: returned array @{addr} of app {a} not visible in the host's shared memory")
+            if r_out == "fault":
+                ctx.count("faults_compared")
+                if e_info["line"] != r_info["line"]:
+                    ctx.fail(case, f"{where}: fault reported at line {e_info['line']} ({e_info['exc']}), reference faults at "
+                                   f"line {r_info['line']} ({r_info['what']})")
                     return ctx.case(case, nontrivial)
-                alias = list(refs[a].shared_alias[addr])
-                if host != snap and host != alias:
-                    ctx.fail(case, f"{where}: after {r_out} the host reads {host} from @{addr} of app {a}; the last ret_arr returned "
-                                   f"{snap} and the returned array now holds {alias}")
+            if r_out == "blocked":
+                ctx.count("blocked_waits_observed")
+            for a in range(len(refs)):
+                d = l2.diff_views(side.app_view(a), l2.ref_view(refs[a]))
+                if d:
+                    tag = "" if a == app else f" (app {a} was not running: isolation)"
+                    ctx.fail(case, f"{where}: after {r_out}{' at line ' + str(r_info.get('line')) if r_out != 'done' else ''}, app {a} {d}{tag}")
                     return ctx.case(case, nontrivial)
-        # no partial effect on the physical-qubit bookkeeping either: ids marked in use == ids mapped
-        ex = side.ex
-        mapped = sorted(p for um in ex._qubit_unit_modules.values() for p in um if p is not None)
-        if sorted(ex._used_physical_qubit_addresses) != mapped:
-            ctx.fail(case, f"{where}: after {r_out}, physical qubits marked in use {sorted(ex._used_physical_qubit_addresses)} "
-                           f"but mapped {mapped}")
-            return ctx.case(case, nontrivial)
-        if r_out in ("fault", "blocked"):
-            break
+            # host-visible shared memory received the publications
+            from netqasm.sdk.shared_memory import SharedMemoryManager
+            shm = SharedMemoryManager.get_shared_memory("node", app)
+            for name, v in refs[app].shared_regs.items():
+                if shm is None or shm.get_register(name) != v:
+                    ctx.fail(case, f"{where}: returned register {name}={v} not visible in the host's shared memory "
+                                   f"({None if shm is None else shm.get_register(name)})")
+                    return ctx.case(case, nontrivial)
+            if side.ex.ret_mismatch:
+                ctx.fail(case, f"{where}: {side.ex.ret_mismatch[0]}")
+                return ctx.case(case, nontrivial)
+            # Between returns the host's copy of a returned array is either the snapshot taken by ret_arr or (in-process shared
+            # memory, which the SDK relies on across subroutines) the returned list itself, i.e. it follows later stores to THAT
+            # array until the address is re-declared.  Anything else - e.g. wiped by a later `array` - is not prescribed by any
+            # instruction.  Checked for every application after every subroutine, fault or not.
+            for a in range(len(refs)):
+                shm_a = SharedMemoryManager.get_shared_memory("node", a)
+                for addr, snap in refs[a].shared_arrays.items():
+                    ctx.count("host_arrays_compared")
+                    try:
+                        host = list(shm_a._get_array(addr))
+                    except Exception:
+                        ctx.fail(case, f"{where}: returned array @{addr} of app {a} not visible in the host's shared memory")
+                        return ctx.case(case, nontrivial)
+                    alias = list(refs[a].shared_alias[addr])
+                    if host != snap and host != alias:
+                        ctx.fail(case, f"{where}: after {r_out} the host reads {host} from @{addr} of app {a}; the last ret_arr returned "
+                                       f"{snap} and the returned array now holds {alias}")
+                        return ctx.case(case, nontrivial)
+            # no partial effect on the physical-qubit bookkeeping either: ids marked in use == ids mapped
+            ex = side.ex
+            mapped = sorted(p for um in ex._qubit_unit_modules.values() for p in um if p is not None)
+            if sorted(ex._used_physical_qubit_addresses) != mapped:
+                ctx.fail(case, f"{where}: after {r_out}, physical qubits marked in use {sorted(ex._used_physical_qubit_addresses)} "
+                               f"but mapped {mapped}")
+                return ctx.case(case, nontrivial)
+            if r_out in ("fault", "blocked"):
+                break
     ctx.case(case, nontrivial and complete)
